@@ -422,6 +422,32 @@ def monOp (op : String) (args : List String) : Option String :=
     let (x, ts) ← pNat ts
     let (distinct, _) ← pBit ts
     some (if !distinct || q == x then "ok" else "viol C12-route-quote")
+  | "mon_topup_weight" => do
+    -- C10 / C07: <the owner's latest weight grew> <number of OTHER accounts whose latest weight changed> after a top-up
+    let (grew, ts) ← pBit args
+    let (others, _) ← pNat ts
+    some (if grew && others == 0 then "ok" else "viol C10-weight-misattributed")
+  | "mon_exit_weight" => do
+    -- C10: <owner's latest weight before> <after> <total before> <after> of an accepted exit with a position that was open
+    let (xs, _) ← pRepeat pNat 4 args
+    match xs with
+    | [ub, ua, tb, ta] => some (if ua < ub && ta < tb then "ok" else "viol C10-weight-kept")
+    | _ => none
+  | "mon_topup_backed" => do
+    -- C08 / C05: <growth of a position's recorded amount> <growth of the farm manager's balance in that position's LP token>
+    let (d, ts) ← pNat args
+    let (got, _) ← pInt ts
+    some (if got == (d : Int) then "ok" else "viol C08-topup-unbacked,C05-custody")
+  | "mon_min_receive" => do
+    -- C13: <minimum_receive of an EXECUTED route> <what it delivered>
+    let (mr, ts) ← pNat args
+    let (got, _) ← pNat ts
+    some (if mr ≤ got then "ok" else "viol C13-minimum-receive")
+  | "mon_hop_k" => do
+    let (xs, _) ← pRepeat pNat 4 args
+    match xs with
+    | [x, y, x', y'] => some (verdict (monHopK x y x' y'))
+    | _ => none
   | "mon_route_unquoted" => do
     -- C12: an EXECUTED route that SimulateSwapOperations refused to price an instant before; <pools pairwise distinct and no
     -- denom produced by two hops> (otherwise the query may legitimately overflow: C12Sys.route_tx_equals_simulation_partial)
